@@ -1,4 +1,5 @@
 import BU.Properties.C14
+import BU.Properties.C14_Gen
 import BU.Properties.C14_Witness
 #print axioms C14.magic_tie
 #print axioms C14.digest_eq_core
@@ -6,6 +7,8 @@ import BU.Properties.C14_Witness
 #print axioms C14.verify_header_window
 #print axioms C14.sign_verifies
 #print axioms C14.sign_verifies_unconditional
+#print axioms C14Gen.gen_add_magic_prefix
+#print axioms C14Gen.gen_prefix_eq_core
 #print axioms C14.mulG_6
 #print axioms C14.mulG_1
 #print axioms C14.hinf_witness
